@@ -183,7 +183,8 @@ func (r *Reader) traverseNode(n *html.Node, ctx *parseContext) {
 					Items:   ctx.listItems,
 					Ordered: ctx.listOrdered,
 				})
-				ctx.inList = false
+				// (still inside the list element: items after this block start a
+				// new run instead of being dropped)
 				ctx.listItems = nil
 			}
 
@@ -206,7 +207,8 @@ func (r *Reader) traverseNode(n *html.Node, ctx *parseContext) {
 					Items:   ctx.listItems,
 					Ordered: ctx.listOrdered,
 				})
-				ctx.inList = false
+				// (still inside the list element: items after this block start a
+				// new run instead of being dropped)
 				ctx.listItems = nil
 			}
 
@@ -296,7 +298,8 @@ func (r *Reader) traverseNode(n *html.Node, ctx *parseContext) {
 					Items:   ctx.listItems,
 					Ordered: ctx.listOrdered,
 				})
-				ctx.inList = false
+				// (still inside the list element: items after this block start a
+				// new run instead of being dropped)
 				ctx.listItems = nil
 			}
 
@@ -383,7 +386,8 @@ func (r *Reader) traverseNodeFiltered(n *html.Node, ctx *parseContext, elements 
 					Items:   ctx.listItems,
 					Ordered: ctx.listOrdered,
 				})
-				ctx.inList = false
+				// (still inside the list element: items after this block start a
+				// new run instead of being dropped)
 				ctx.listItems = nil
 			}
 
@@ -406,7 +410,8 @@ func (r *Reader) traverseNodeFiltered(n *html.Node, ctx *parseContext, elements 
 					Items:   ctx.listItems,
 					Ordered: ctx.listOrdered,
 				})
-				ctx.inList = false
+				// (still inside the list element: items after this block start a
+				// new run instead of being dropped)
 				ctx.listItems = nil
 			}
 
@@ -496,7 +501,8 @@ func (r *Reader) traverseNodeFiltered(n *html.Node, ctx *parseContext, elements 
 					Items:   ctx.listItems,
 					Ordered: ctx.listOrdered,
 				})
-				ctx.inList = false
+				// (still inside the list element: items after this block start a
+				// new run instead of being dropped)
 				ctx.listItems = nil
 			}
 
